@@ -145,6 +145,11 @@ func c11GenCase() *rapid.Generator[c11Case] {
 					op.Inv = rapid.SampledFrom(rels).Draw(t, "inv")
 				}
 				c.Ops = append(c.Ops, op)
+				if rapid.IntRange(0, 5).Draw(t, "gvacuum") == 0 {
+					// the graph vacuum reclaims the closed versions; the lists it compacts are the ones later
+					// links, unlinks and traversals work on
+					c.Ops = append(c.Ops, c11Op{Kind: "gvacuum"})
+				}
 			}
 		}
 
